@@ -117,4 +117,49 @@ theorem sweeps_preserve_values (ws : List (Nat × Nat)) (h : Heap V) (k : Nat) :
   | zero => rfl
   | succ k ih => rw [Function.iterate_succ_apply', ih, sweep_preserves_values]
 
+/-! ## general writes: the undo of the repaired `CGraph.pushforward` -/
+
+theorem gundo_gsaved (ws : List (GWrite V)) (h : Heap V) : gundo (gsaved ws h) (gfwd ws h) = h := by
+  induction ws generalizing h with
+  | nil => rfl
+  | cons w ws ih =>
+    simp only [gsaved, gfwd, gundo]
+    rw [ih (upd h w.d (w.g h))]
+    exact upd_upd_self h w.d (w.g h)
+
+/-- the state (heap, saved contents) reached by evaluating at the inputs `ins` from the heap `h0` -/
+def evalState (ws : List (GWrite V)) (h0 : Heap V) (ins : List (Nat × V)) : Heap V × List (Nat × V) :=
+  (gfwd ws (setIn ins h0), gsaved ws (setIn ins h0))
+
+/-- inputs are set completely: what an earlier evaluation wrote into the input cells does not matter -/
+def InputsCover (ins ins' : List (Nat × V)) : Prop :=
+  ∀ h : Heap V, setIn ins (setIn ins' h) = setIn ins h
+
+/-- **one evaluation after another**: undo + set inputs + run gives the state of a fresh evaluation from the recorded heap -/
+theorem evalUndo_fresh (ws : List (GWrite V)) (h0 : Heap V) (ins' ins : List (Nat × V)) (hc : InputsCover ins ins') :
+    evalUndo ws (evalState ws h0 ins') ins = evalState ws h0 ins := by
+  unfold evalUndo evalState
+  simp only
+  rw [gundo_gsaved, hc h0]
+
+/-- **any history**: after any sequence of evaluations (each setting all inputs) the evaluation at `ins` is the fresh one -/
+theorem evalUndo_history (ws : List (GWrite V)) (h0 : Heap V) (first : List (Nat × V)) (hist : List (List (Nat × V)))
+    (ins : List (Nat × V)) (hc : ∀ a b, a ∈ (first :: hist) ++ [ins] → b ∈ (first :: hist) ++ [ins] → InputsCover a b) :
+    evalUndo ws (hist.foldl (evalUndo ws) (evalState ws h0 first)) ins = evalState ws h0 ins := by
+  have key : ∀ (hist : List (List (Nat × V))) (first : List (Nat × V)),
+      (∀ a b, a ∈ (first :: hist) → b ∈ (first :: hist) → InputsCover a b) →
+      ∃ last, last ∈ first :: hist ∧ hist.foldl (evalUndo ws) (evalState ws h0 first) = evalState ws h0 last := by
+    intro hist
+    induction hist with
+    | nil => intro first _; exact ⟨first, by simp, rfl⟩
+    | cons x xs ih =>
+      intro first hcov
+      simp only [List.foldl_cons]
+      rw [evalUndo_fresh ws h0 first x (hcov x first (by simp) (by simp))]
+      obtain ⟨last, hl, he⟩ := ih x (fun a b ha hb => hcov a b (by simp at ha ⊢; tauto) (by simp at hb ⊢; tauto))
+      exact ⟨last, by simp at hl ⊢; tauto, he⟩
+  obtain ⟨last, hl, he⟩ := key hist first (fun a b ha hb => hc a b (by simp at ha ⊢; tauto) (by simp at hb ⊢; tauto))
+  rw [he]
+  exact evalUndo_fresh ws h0 last ins (hc ins last (by simp) (by simp at hl ⊢; tauto))
+
 end AV.Tracer
